@@ -21,7 +21,7 @@ TIMEOUT = {'quick': 900, 'thorough': 7200}
 def gen_cases(tier, seed):
     rng = random.Random(seed * 67867967 + 6)
     cases = []
-    n_auto = 1300 if tier == 'quick' else 30000
+    n_auto = 1300 if tier == 'quick' else 120000
     for _ in range(n_auto):
         cls = rng.choice(['digits', 'alnum', 'ascii', 'latin1', 'bytes', 'kana'])
         content = gen.content_of(rng, cls, rng.choice([rng.randint(1, 12), rng.randint(1, 60), rng.randint(1, 150)]))
